@@ -744,6 +744,13 @@ pub fn run_sig(root_alg: Algorithm, bs: &[SB], rng: &mut Rng) -> Result<(Vec<u32
         let k = kp(b.next, rng);
         let bb = content_for(b.dver, i);
         token = match b.kind {
+            // every other builder append goes through UnverifiedBiscuit (same rule expected on both token types)
+            BKind::Builder if (i + bs.len()) % 2 == 1 => {
+                let bytes = token.to_vec().map_err(|e| format!("{:?}", e))?;
+                let u = biscuit_auth::UnverifiedBiscuit::from(&bytes).map_err(|e| format!("unverified: {:?}", e))?;
+                let u2 = u.append_with_keypair(&k, bb).map_err(|e| format!("{:?}", e))?;
+                u2.verify(root.public()).map_err(|e| format!("verify after unverified append: {:?}", e))?
+            }
             BKind::Builder => token.append_with_keypair(&k, bb).map_err(|e| format!("{:?}", e))?,
             BKind::Third => {
                 let ext = kp(if i % 2 == 0 { Algorithm::Ed25519 } else { Algorithm::Secp256r1 }, rng);
